@@ -18,6 +18,12 @@ is bounded by the edit, on the model of `ts_subtree_edit` that C10 ties to the c
   OPEN (upper side): a rebuilt subtree also starts at or before the old end of the edit unless it
   is column-dependent on the edited row (`stopsAt` of C10) — judged on the dumps (`marksOk`), not
   proved.
+* "the touched path is thin" — `rebuilt_kid_reaches` + `marked_fanout_bound`: of the children of ANY
+  node at most `(old_end − start) + λ + 2` can be rebuilt (children of positive width, look-ahead
+  ≤ λ), independent of the number of children; together with `balanced` (judged on the dumps:
+  repeat chains are logarithmically deep) the marked set of a one-token edit is O(depth) nodes.
+  OPEN: the global count `marked ≤ depth · (w + λ + 2)` (needs the level-wise tiling argument and
+  an assumption on zero-width nodes such as the EOF leaf).
 * "unchanged parts are shared" — `unmarked_shared`: every subtree of the edited tree without
   `has_changes` IS the subtree at the same path of the tree before the edit (same value; in the C
   code the same pointer, which `marksOk` checks on the dumps by comparing addresses).
@@ -265,6 +271,65 @@ theorem marked_upper : ∀ (p : List Nat) (t : Tree) (e : Edit) (s s' : Tree) (o
             rcases hoe with hoe | hoe <;> omega
       · contradiction
 
+/-! ## Fan-out of the marked set: bounded by the width of the edit, not by the number of children -/
+
+/-- Counting lemma: among children of positive width whose look-ahead is at most `lam`, laid out
+from `off`, those that reach the window `[S, E]` fit between `max off (S − lam − 1)` and `E`. -/
+theorem countReachKids_le (lam S E : Nat) (hSE : S ≤ E) :
+    ∀ (ks : List Tree) (off : Nat), (∀ k ∈ ks, 1 ≤ k.totalBytes ∧ k.data.lookahead ≤ lam) →
+      (E < off → countReachKids ks off S E = 0) ∧
+      (off ≤ E → countReachKids ks off S E + max off (S - lam - 1) ≤ E + 1)
+  | [], off, _ => by simp [countReachKids]; omega
+  | k :: rest, off, h => by
+    have hk := h k (by simp)
+    have ih := countReachKids_le lam S E hSE rest (off + k.totalBytes) (fun x hx => h x (by simp [hx]))
+    unfold countReachKids
+    constructor
+    · intro hgt
+      have : reaches k off S E = false := by simp [reaches]; omega
+      rw [this, ih.1 (by omega)]
+      simp
+    · intro hle
+      by_cases hr : reaches k off S E = true
+      · simp only [hr, if_true]
+        simp only [reaches, Bool.and_eq_true, decide_eq_true_eq] at hr
+        by_cases hnext : off + k.totalBytes ≤ E
+        · have := ih.2 hnext
+          omega
+        · rw [ih.1 (by omega)]
+          omega
+      · simp only [hr]
+        by_cases hnext : off + k.totalBytes ≤ E
+        · have := ih.2 hnext
+          simp only [Bool.false_eq_true, if_false, Nat.zero_add]
+          omega
+        · rw [ih.1 (by omega)]
+          simp only [Bool.false_eq_true, if_false, Nat.zero_add]
+          omega
+
+/-- `marked_fanout_bound`: however many children a node has, at most
+`(old_end − start) + lam + 2` of them can reach the edit — and only those can be rebuilt
+(`rebuilt_kid_reaches`).  With `balanced` (every repeat chain logarithmically deep, judged on the
+dumps) this is why a one-token edit marks O(depth) nodes. -/
+theorem marked_fanout_bound (lam : Nat) (ks : List Tree) (e : Edit) (hle : e.start.bytes ≤ e.old_end.bytes)
+    (h : ∀ k ∈ ks, 1 ≤ k.totalBytes ∧ k.data.lookahead ≤ lam) :
+    countReachKids ks 0 e.start.bytes e.old_end.bytes ≤ (e.old_end.bytes - e.start.bytes) + lam + 2 := by
+  have := (countReachKids_le lam e.start.bytes e.old_end.bytes hle ks 0 h).2 (by omega)
+  omega
+
+/-- `rebuilt_kid_reaches`: a child that `ts_subtree_edit` does not return as the very same value
+reaches the edit window (so it is one of the children counted by `countReachKids`). -/
+theorem rebuilt_kid_reaches (d : NodeData) (ks : List Tree) (e : Edit) (j : Nat) (k k' : Tree)
+    (hn : noCol (.mk d ks) = true) (hle : e.start.bytes ≤ e.old_end.bytes)
+    (hk : ks[j]? = some k) (hk' : subtreeAt (editTree (.mk d ks) e) [j] = some k') (hne : k' ≠ k) :
+    reaches k (kidsOffset ks j) e.start.bytes e.old_end.bytes = true := by
+  have hs : subtreeAt (.mk d ks) [j] = some k := by simp [subtreeAt, hk]
+  have ho : offsetAt (.mk d ks) [j] = some (kidsOffset ks j) := by simp [offsetAt, hk]
+  have h1 := marked_bound [j] (.mk d ks) e k k' _ hs hk' ho hne
+  have h2 := marked_upper [j] (.mk d ks) e k k' _ hn hle hs hk' ho hne
+  simp only [reaches, Bool.and_eq_true, decide_eq_true_eq]
+  exact ⟨h2, h1⟩
+
 /-- `lex_calls_bound`: in every incremental run of the LR machine the number of lexer calls is at
 most the number of tokens consumed minus the tokens that lie below reused subtrees. -/
 theorem lex_calls_bound (T : C01.LR.Table) (bottom l r : Nat) (c d : C01.LR.Stack × List C01.Tok)
@@ -300,5 +365,14 @@ example :
     subtreeAt root3 [1] = some (leaf2 2) ∧ offsetAt root3 [1] = some 2 ∧ noCol root3 = true ∧
     edit3.start.bytes ≤ edit3.old_end.bytes :=
   ⟨by rfl, by rfl, ⟨_, by rfl, by rfl, by rfl⟩, by rfl, by rfl, by rfl, by decide⟩
+
+/-- The fan-out bound on the concrete tree: two of the three leaves reach the edit `[3,4]`
+(the bound is `(4 − 3) + 0 + 2 = 3`), and the hypotheses of `marked_fanout_bound` hold. -/
+example : countReachKids [leaf2 1, leaf2 2, leaf2 3] 0 3 4 = 2 ∧
+    (∀ k ∈ [leaf2 1, leaf2 2, leaf2 3], 1 ≤ k.totalBytes ∧ k.data.lookahead ≤ 0) := by
+  refine ⟨by decide, ?_⟩
+  intro k hk
+  simp only [List.mem_cons, List.not_mem_nil, or_false] at hk
+  rcases hk with rfl | rfl | rfl <;> decide
 
 end TsVerif.C12
